@@ -236,22 +236,115 @@ Proof.
   unfold wf_input. rewrite forallb_forall. intros H a Ha. apply accounts_In. apply N.ltb_lt. apply H. exact Ha.
 Qed.
 
-Lemma mon_accepts_model h ins : forall s hist i,
-  inv (accounts (h_n h)) s -> winv s -> hinv h hist s ->
-  forallb (wf_input (h_n h)) ins = true ->
-  mon_from (s_now s) hist (run_model h s ins) i = 0%N.
+(* an Advance or a failing call leaves every current-state getter as it was *)
+Definition core (o : obs) := (o_accts o, o_supply o, o_ts o, o_ts_cps o, o_owners o).
+
+Lemma core_eqb_of_eq a b : core a = core b -> core_eqb a b = true.
 Proof.
-  induction ins as [|[[au c] qs] ins IH]; intros s hist i I W Hh Hwf; [reflexivity|].
+  unfold core, core_eqb. intros H. inversion H as [[H1 H2 H3 H4 H5]]. rewrite H1, H2, H3, H4, H5.
+  rewrite !Z.eqb_refl, (eqb_list_refl _ _ eqb_acct_refl), (eqb_list_refl _ _ eqb_zz_refl),
+    (eqb_list_refl _ _ oaddr_eqb_refl). reflexivity.
+Qed.
+
+Lemma core_with_now h s n qs qs0 : core (observe h (with_now s n) qs) = core (observe h s qs0).
+Proof. reflexivity. Qed.
+
+Lemma step_stable h s au c : is_advance c || negb (is_ok (snd (step h s au c))) = true ->
+  forall qs qs0, core (observe h (fst (step h s au c)) qs) = core (observe h s qs0).
+Proof.
+  unfold step. intros H qs qs0. destruct (is_fungible (h_kind h)).
+  - destruct (step_f h s au c) as [[s' r]|] eqn:E; cbn [fst snd is_ok negb] in *; [|reflexivity].
+    rewrite orb_false_r in H. destruct c; try discriminate. cbn [step_f] in E. inv_bind E. inv_guards.
+    apply core_with_now.
+  - destruct (step_n h s au c) as [[s' r]|] eqn:E; cbn [fst snd is_ok negb] in *; [|reflexivity].
+    rewrite orb_false_r in H. destruct c; try discriminate. unfold step_n in E. inv_bind E. inv_guards.
+    apply core_with_now.
+Qed.
+
+(* delegatees change only by the account's own successful delegate call *)
+Lemma step_delegate_frame h s au c : 0 <= s_now s -> forall k,
+  delegate_of (s_v (fst (step h s au c))) k =
+  match c with
+  | Delegate a d => if is_ok (snd (step h s au c)) && N.eqb k a then Some d else delegate_of (s_v s) k
+  | _ => delegate_of (s_v s) k
+  end.
+Proof.
+  intros H0 k.
+  assert (G : (forall a d, c <> Delegate a d) -> delegate_of (s_v (fst (step h s au c))) k = delegate_of (s_v s) k).
+  { intros Hc. destruct (step_shape h s au c) as [Hn Hv Hb|from to amt Hamt Hn Ht Hb Hft|auths acc d Hn Hd Hb Hacc].
+    - rewrite Hv. reflexivity.
+    - assert (Hne : amt <> 0) by lia. destruct (tvu_spec _ _ _ _ _ _ H0 Hne Ht) as [T1 _]. apply T1.
+    - exfalso. apply (Hc acc d). exact Hacc. }
+  destruct c; try (apply G; intros; discriminate).
+  unfold step. destruct (is_fungible (h_kind h)).
+  - cbn [step_f]. destruct (delegate (s_now s) au (s_v s) account delegatee) as [v|] eqn:E; cbn [bind fst snd is_ok andb s_v with_v].
+    + destruct (delegate_spec _ _ _ _ _ _ H0 E) as [_ [_ [D3 _]]]. apply D3.
+    + reflexivity.
+  - unfold step_n. cbn [call_arg]. replace (in_u32 0) with true by reflexivity. cbn [guard bind].
+    destruct (delegate (s_now s) au (s_v s) account delegatee) as [v|] eqn:E; cbn [bind fst snd is_ok andb s_v with_v].
+    + destruct (delegate_spec _ _ _ _ _ _ H0 E) as [_ [_ [D3 _]]]. apply D3.
+    + reflexivity.
+Qed.
+
+Lemma nth_error_accounts n k : (k < n)%nat -> nth_error (accounts n) k = Some (N.of_nat k).
+Proof.
+  intros H. unfold accounts. apply map_nth_error.
+  rewrite (nth_error_nth' (seq 0 n) 0%nat) by (rewrite seq_length; exact H). rewrite seq_nth by exact H. reflexivity.
+Qed.
+
+Lemma prev_dlg_model h s prev : 
+  (forall p, prev = Some p -> exists qs0, p = observe h s qs0) ->
+  (prev = None -> forall a, delegate_of (s_v s) a = None) ->
+  forall k, (k < h_n h)%nat -> prev_dlg prev k = delegate_of (s_v s) (N.of_nat k).
+Proof.
+  intros Hp Hn k Hk. unfold prev_dlg. destruct prev as [p|].
+  - destruct (Hp p eq_refl) as [qs0 ->]. cbn [o_accts observe].
+    rewrite (map_nth_error (observe_acct s) k (accounts (h_n h)) (nth_error_accounts _ _ Hk)). reflexivity.
+  - symmetry. apply Hn. reflexivity.
+Qed.
+
+Lemma dlg_ok_from_model h s au c prev :
+  0 <= s_now s ->
+  (forall k, (k < h_n h)%nat -> prev_dlg prev k = delegate_of (s_v s) (N.of_nat k)) ->
+  forall m k, (k + m <= h_n h)%nat ->
+  dlg_ok_from prev c (snd (step h s au c))
+    (map (observe_acct (fst (step h s au c))) (map N.of_nat (seq k m))) k = true.
+Proof.
+  intros H0 Hp. induction m as [|m IH]; intros k Hk; [reflexivity|].
+  cbn [seq map dlg_ok_from]. rewrite IH by lia. rewrite andb_true_r.
+  unfold observe_acct at 1. cbn [ao_dlg]. apply oaddr_eqb_eq.
+  rewrite (step_delegate_frame h s au c H0). unfold dlg_expected. rewrite (Hp k) by lia.
+  destruct c; reflexivity.
+Qed.
+
+Lemma mon_accepts_model h ins : forall s prev hist i,
+  inv (accounts (h_n h)) s -> winv s -> hinv h hist s ->
+  (forall p, prev = Some p -> exists qs0, p = observe h s qs0) ->
+  (prev = None -> forall a, delegate_of (s_v s) a = None) ->
+  forallb (wf_input (h_n h)) ins = true ->
+  mon_from prev (s_now s) hist (run_model h s ins) i = 0%N.
+Proof.
+  induction ins as [|[[au c] qs] ins IH]; intros s prev hist i I W Hh Hp Hpn Hwf; [reflexivity|].
   cbn [forallb] in Hwf. apply andb_prop in Hwf. destruct Hwf as [Hwf1 Hwf].
   cbn [run_model mon_from]. set (s' := fst (step h s au c)).
   assert (Sh : shape c s s') by apply step_shape.
   assert (I' : inv (accounts (h_n h)) s').
   { eapply inv_step; [apply accounts_NoDup| |exact I|exact Sh]. apply (wf_input_in _ _ Hwf1). }
   rewrite (mon_obs_model h hist s s' c qs I' W Hh Sh).
+  assert (St : stable_ok prev c (snd (step h s au c)) (observe h s' qs) = true).
+  { unfold stable_ok. destruct prev as [p|]; [|reflexivity]. destruct (Hp p eq_refl) as [qs0 ->].
+    destruct (is_advance c || negb (is_ok (snd (step h s au c)))) eqn:E; [|reflexivity].
+    apply core_eqb_of_eq. symmetry. apply step_stable. exact E. }
+  rewrite St. cbn [andb].
+  assert (Dl : dlg_ok_from prev c (snd (step h s au c)) (o_accts (observe h s' qs)) 0 = true).
+  { cbn [o_accts observe]. apply (dlg_ok_from_model h s au c prev (proj1 W) (prev_dlg_model h s prev Hp Hpn) (h_n h) 0%nat). lia. }
+  rewrite Dl.
   rewrite cur_vector_observe. cbn [o_now observe].
   apply IH; auto.
   - apply winv_step. exact W.
   - eapply hinv_step; eauto.
+  - intros p Hp'. inversion Hp'. exists qs. reflexivity.
+  - intros Hp'. discriminate.
 Qed.
 
 Theorem check_accepts_model h ins :
@@ -265,4 +358,5 @@ Proof.
   - apply inv_init. exact Hh.
   - apply winv_init. exact Hh.
   - apply hinv_init.
+  - intros p Hp. discriminate.
 Qed.
